@@ -103,6 +103,23 @@ ReportDuring(a, evk, j) ==
              /\ Log([act |-> "ReportDuring", a |-> a, ev |-> evk, j |-> j, first |-> first, to |-> got])
   /\ UNCHANGED <<issued, stopped, fate>>
 
+\* a Subscribe request (client c, filter f with the action in it) is served by another thread right after the manager
+\* has selected the subscribers of a report: the new subscriber may or may not get this report - but it is a
+\* subscriber from now on (the next report must reach it)
+ReportDuringSubscribe(a, c, f, takes) ==
+  /\ Go /\ issued + 1 \in Ids /\ a \in f
+  /\ LET i == issued + 1
+         to == {k \in Ids : Alive(k) /\ a \in subs[k].filter}
+         got == IF takes THEN to \cup {i} ELSE to
+         subs1 == [subs EXCEPT ![i] = [known |-> TRUE, owner |-> c, filter |-> f, started |-> now, dur |-> Grant(0),
+                                       errors |-> 0, unsub |-> FALSE, unsubAt |-> 0, ended |-> FALSE, endTo |-> FALSE]]
+     IN /\ wire' = wire \o [n \in 1..Cardinality(got) |-> a]
+        /\ subs' = [k \in Ids |-> IF k \in got THEN [subs1[k] EXCEPT !.errors = 0] ELSE subs1[k]]
+        /\ issued' = i
+        /\ Log([act |-> "ReportDuring", a |-> a, ev |-> "Subscribe", j |-> i, c |-> c, f |-> f, req |-> 0,
+                endTo |-> FALSE, to |-> got])
+  /\ UNCHANGED <<now, stopped, fate>>
+
 Housekeeping ==
   /\ Go
   /\ subs' = [i \in Ids |-> IF subs[i].known /\ (~Valid(subs[i]) \/ (subs[i].unsub /\ now > subs[i].unsubAt + 1))
@@ -132,6 +149,7 @@ Next == \/ \E c \in Clients, f \in Filters, req \in ReqVals, e \in BOOLEAN : Sub
         \/ \E a \in Actions, fail \in SUBSET Clients, k \in {"http_error", "refused", "timeout"} :
               (fail = {} => k = "http_error") /\ Report(a, fail, k)
         \/ \E a \in Actions, evk \in {"Unsubscribe", "Tick"}, j \in Ids : ReportDuring(a, evk, j)
+        \/ \E a \in Actions, c \in Clients, f \in Filters, takes \in BOOLEAN : ReportDuringSubscribe(a, c, f, takes)
         \/ \E b \in BOOLEAN, lost \in SUBSET Clients : Stop(b, lost)
 
 Spec == Init /\ [][Next]_vars
